@@ -520,7 +520,7 @@ def shapes_stage():
             res['harness'][mode] = {'cases': rep['cases'], 'checks': rep['checks'], 'failures': len(rep['failures'])}
             res['runs'] += rep['cases']
             res['events'] += rep['checks']
-            for f in rep['failures'][:12]:
+            for f in rep['failures'][:24]:
                 # a failure tagged with another property id belongs to that property (e.g. a reclaimed value whose allocation stays)
                 tag = re.match(r'^"?\[(C\d+)\] ', f)
                 res['violations'].append({'run': 0, 'prop': tag.group(1) if tag else prop, 'msg': f, 'n': 0, 'faulted': False, 'resur': False,
